@@ -125,12 +125,22 @@ def _run_one(job):
             f.write('(set-logic ALL)\n' + smt2)
             fn = f.name
         try:
-            p = subprocess.run([CVC5, '--strings-exp', f'--tlimit={int(timeout_s * 1000)}', fn],
+            p = subprocess.run([CVC5, '--strings-exp', '--produce-models', '--dump-models', f'--tlimit={int(timeout_s * 1000)}', fn],
                                capture_output=True, text=True, timeout=timeout_s + 5)
             out = p.stdout.strip().splitlines()
             if out and out[0] in ('sat', 'unsat'):
                 res['verdict'] = out[0]
                 res['backend'] = 'cvc5'
+                if out[0] == 'sat':
+                    import re
+                    mdl = {}
+                    for mm in re.finditer(r'\(define-fun (\S+) \(\) \S+ (.*)\)\s*$', p.stdout, re.M):
+                        v = mm.group(2).strip()
+                        neg = re.fullmatch(r'\(- (\d+)\)', v)
+                        mdl[mm.group(1).strip('|')] = ('-' + neg.group(1)) if neg else {'true': 'True', 'false': 'False'}.get(v, v)
+                    if mdl:
+                        res['model'] = mdl
+                        res['raw'] = '\n'.join(out[1:])[:4000] + ' | ' + res['raw']
             res['raw'] += ' | cvc5: ' + (out[0] if out else p.stderr[:200])
         except subprocess.TimeoutExpired:
             res['raw'] += ' | cvc5: timeout'
